@@ -90,14 +90,18 @@ impl FeelZone {
               let mut offset = 3600 * hours + 60 * minutes;
               if let Some(seconds_match) = captures.name("offSeconds") {
                 if let Ok(seconds) = seconds_match.as_str().parse::<i32>() {
+                  if seconds > 59 {
+                    // there are less than 60 seconds in a minute
+                    return None;
+                  }
                   offset += seconds;
                 }
               }
               if sign_match.as_str() == "-" {
                 offset = -offset;
               }
-              if hours > 14 {
-                // the hour magnitude is limited to at most 14
+              if hours > 14 || minutes > 59 {
+                // the hour magnitude is limited to at most 14, there are less than 60 minutes in an hour
                 return None;
               }
               return Some(FeelZone::new(offset));
